@@ -2,11 +2,13 @@
 Importing this module puts /repo (the working tree under test) first on sys.path."""
 import math
 import os
+import warnings
 import random
 import sys
 
 REPO = os.environ.get("VERIF_REPO", "/repo")
 sys.dont_write_bytecode = True
+warnings.filterwarnings("ignore", category=RuntimeWarning)
 if sys.path[0] != REPO:
     sys.path.insert(0, REPO)
 
